@@ -5,6 +5,7 @@
 -/
 import LpProofs.C18.Lemmas
 import LpProofs.C18.Poisson
+import LpProofs.C18.PoissonFull
 import Mathlib.Tactic.NormNum
 namespace Lp.C18
 
@@ -247,9 +248,9 @@ theorem rejLoop_no_fuel (u01 : U01 G) (pdf : Rat → Rat) (xMin xMax yMax : Rat)
 /-- FULL clause (every mean, any number of `exp(STEP)` rescalings): for a multiplicative, positive `exp`
     with `exp x ≥ 1` on `x ≥ 0`, uniforms in `[0,1)`, `STEP > 0`, enough inner fuel and no exact tie
     `u₁…u_k·exp(m·STEP) = 1`, the sampler returns the least `K` with `u₁…u_{K+1}·exp λ ≤ 1` and
-    consumes exactly `K+1` uniforms.  Proved below without rescaling (`λ ≤ STEP`, the case
-    `expectation_value ≤ 500`); the rescaled case is decided by correspondence (c18.poisson:
-    means up to 5·10³ against this model on the predicted uniforms) and by the oracle. -/
+    consumes exactly `K+1` uniforms.  PROVED: `poisson_knuth_full` below (a corollary of `poisson_knuth`,
+    which asks of `exp` only the splitting the code performs, so that rational instances other than the
+    constant 1 exist). -/
 def poisson_knuth_FULL : Prop :=
   ∀ (G : Type) (u01 : U01 G) (exp : Rat → Rat) (step lam : Rat) (rf fuel : Nat) (g gout : G) (K : Nat),
     Unit01 u01 → (∀ a b, exp (a + b) = exp a * exp b) → (∀ a, 0 < exp a) → (∀ a, 0 ≤ a → 1 ≤ exp a) →
@@ -308,6 +309,128 @@ theorem poisson_knuth_partial (u01 : U01 G) (hu : Unit01 u01) (exp : Rat → Rat
 -- non-vacuity: a source with u = 1/4 and `exp λ = 5`: 5/4 > 1, 5/16 ≤ 1, so K = 1 after two uniforms
 example : samplePoisson (G := Nat) (fun n => ((1 : Rat) / 4, n + 1)) (fun _ => 5) (fun x => x) 500 1 10 0 1 = some (1, 2) := by
   norm_num [samplePoisson, poisLoop, poisRescale]
+
+/-! ### every mean: the `exp(STEP)` rescaling -/
+
+/-- **Knuth's rule for every mean** (any number of rescalings).  Hypotheses on `exp`, on `(0, λ]` only:
+    `Peel` (`exp x = exp STEP · exp (x − STEP)` for `STEP < x ≤ λ`, the one splitting the code performs) and
+    `Ge1` (`1 ≤ exp x`).  No hypothesis on the uniforms.  `lam ≤ rf·step`: the fuel of the inner loop suffices
+    (`⌈λ/STEP⌉` iterations).  `htie` is used at exactly one place: the exit test `while(p > 1)` evaluated
+    with `p = 1` while `lambda_left = λ − m·STEP > 0` (there `p = u₁…u_k·exp(STEP)^m`): the C++ leaves the
+    loop although `u₁…u_k·exp λ = exp(lambda_left) ≥ 1` (see `poisson_tie_witness`).
+    Conclusion: `K+1` uniforms consumed, `K` = the least index with `u₁…u_{K+1}·exp λ ≤ 1`. -/
+theorem poisson_knuth (u01 : U01 G) (exp : Rat → Rat) (step lam : Rat) (rf fuel : Nat) (g gout : G) (K : Nat)
+    (hstep : 0 < step) (hlam : 0 < lam) (hrf : lam ≤ rf * step)
+    (hpeel : Peel exp step lam) (hge : Ge1 exp lam)
+    (htie : ∀ k m : Nat, 1 ≤ k → (m : Rat) * step < lam → prodU u01 g k * exp step ^ m ≠ 1)
+    (h : samplePoisson u01 exp (fun x => x) step rf fuel g lam = some (K, gout)) :
+    gout = adv u01 (K + 1) g ∧ prodU u01 g (K + 1) * exp lam ≤ 1 ∧ ∀ j, 1 ≤ j → j ≤ K → 1 < prodU u01 g j * exp lam := by
+  obtain ⟨n, hK, hg, hle, hgt⟩ := poisLoop_inv u01 exp step lam rf hstep hpeel hge fuel 0 1 lam g K gout
+    (le_of_lt hlam) (le_refl _) hrf (by intro j m hj hm; rw [one_mul]; exact htie j m hj hm) h
+  rw [remF_pos_arg hlam, one_mul] at hle
+  have hK' : K = n := by omega
+  subst hK'
+  refine ⟨hg, by rw [mul_comm]; exact hle, ?_⟩
+  intro j h1 h2
+  have := hgt j h1 h2
+  rw [remF_pos_arg hlam, one_mul] at this
+  rw [mul_comm]; exact this
+
+-- non-vacuity: `exp = 2^⌈x⌉` on `(0, 5/2]`, STEP = 1, λ = 5/2 (two full rescalings and a remainder), u = 1/5
+example : (0 : Rat) < 1 ∧ (0 : Rat) < 5 / 2 ∧ (5 / 2 : Rat) ≤ ((3 : Nat) : Rat) * 1 ∧ Peel expS 1 (5 / 2) ∧ Ge1 expS (5 / 2) ∧
+    (∀ k m : Nat, 1 ≤ k → (m : Rat) * 1 < 5 / 2 → prodU (constU (1 / 5)) 0 k * expS 1 ^ m ≠ 1) ∧
+    samplePoisson (constU (1 / 5)) expS (fun x => x) 1 3 10 0 (5 / 2) = some (1, 2) :=
+  ⟨by norm_num, by norm_num, by norm_num, expS_peel, expS_ge1, constU_fifth_notie,
+   by norm_num [samplePoisson, poisLoop, poisRescale, expS, constU]⟩
+
+/-- with uniforms in `[0,1)` the tie hypothesis is needed for `m ≥ 1` only (after at least one rescaling) -/
+theorem poisson_knuth_unit01 (u01 : U01 G) (hu : Unit01 u01) (exp : Rat → Rat) (step lam : Rat) (rf fuel : Nat) (g gout : G) (K : Nat)
+    (hstep : 0 < step) (hlam : 0 < lam) (hrf : lam ≤ rf * step)
+    (hpeel : Peel exp step lam) (hge : Ge1 exp lam)
+    (htie : ∀ k m : Nat, 1 ≤ k → 1 ≤ m → (m : Rat) * step < lam → prodU u01 g k * exp step ^ m ≠ 1)
+    (h : samplePoisson u01 exp (fun x => x) step rf fuel g lam = some (K, gout)) :
+    gout = adv u01 (K + 1) g ∧ prodU u01 g (K + 1) * exp lam ≤ 1 ∧ ∀ j, 1 ≤ j → j ≤ K → 1 < prodU u01 g j * exp lam := by
+  refine poisson_knuth u01 exp step lam rf fuel g gout K hstep hlam hrf hpeel hge ?_ h
+  intro k m hk hm
+  cases m with
+  | zero =>
+    obtain ⟨j, rfl⟩ : ∃ j, k = j + 1 := ⟨k - 1, by omega⟩
+    have := (prodU_lt_one u01 hu j g).2
+    rw [pow_zero, mul_one]; exact ne_of_lt this
+  | succ m => exact htie k (m + 1) hk (by omega) hm
+
+example : Unit01 (constU (1 / 5)) := fun g => by simp [constU]; norm_num
+
+/-- the FULL clause as first stated (fully multiplicative `exp`) -/
+theorem poisson_knuth_full : poisson_knuth_FULL := by
+  intro G u01 exp step lam rf fuel g gout K _ hmul hpos hge1 hstep hlam hrf htie h
+  refine poisson_knuth u01 exp step lam rf fuel g gout K hstep hlam hrf (peel_of_mul exp step lam hmul)
+    (fun x hx _ => hge1 x (le_of_lt hx)) ?_ h
+  intro k m hk hm
+  rw [← exp_nat_mul exp step hmul hpos m]
+  exact htie k m hk hm
+
+-- non-vacuity of the FULL hypotheses: `exp = 1` (over `Rat` a positive `exp` multiplicative on ALL rationals is
+-- necessarily constant — `exp a = (exp (a/n))^n` for every n —, which is why `poisson_knuth` above asks less)
+example : (∀ a b : Rat, (fun _ : Rat => (1 : Rat)) (a + b) = (fun _ => 1) a * (fun _ => 1) b) ∧
+    (∀ a : Rat, (0 : Rat) < (fun _ : Rat => (1 : Rat)) a) ∧ (∀ a : Rat, 0 ≤ a → (1 : Rat) ≤ (fun _ : Rat => (1 : Rat)) a) ∧
+    (∀ k m : Nat, 1 ≤ k → (m : Rat) * 1 < 5 / 2 → prodU (constU (1 / 5)) 0 k * (fun _ : Rat => (1 : Rat)) (m * 1) ≠ 1) := by
+  refine ⟨by intro a b; norm_num, by intro a; norm_num, by intro a _; norm_num, ?_⟩
+  intro k m hk _
+  obtain ⟨j, rfl⟩ : ∃ j, k = j + 1 := ⟨k - 1, by omega⟩
+  have := (prodU_bounds (constU (1 / 5)) (1 / 5) (by norm_num) (fun g => by simp [constU]) j 0).2
+  intro h; simp only [mul_one] at h; linarith
+
+/-- **termination and totality**: if Knuth's index exists (`u₁…u_{n+1}·exp λ ≤ 1` for some `n < fuel`), the
+    sampler returns (no tie hypothesis needed); with `poisson_knuth` the value is then the least such index -/
+theorem poisson_knuth_total (u01 : U01 G) (exp : Rat → Rat) (step lam : Rat) (rf fuel : Nat) (g : G)
+    (hstep : 0 < step) (hlam : 0 < lam) (hrf : lam ≤ rf * step) (hpeel : Peel exp step lam) (hge : Ge1 exp lam)
+    (hex : ∃ n, n < fuel ∧ prodU u01 g (n + 1) * exp lam ≤ 1) :
+    ∃ K gout, samplePoisson u01 exp (fun x => x) step rf fuel g lam = some (K, gout) := by
+  obtain ⟨n, hn, hle⟩ := hex
+  exact poisLoop_total u01 exp step lam rf hstep hpeel hge fuel 0 1 lam g (le_of_lt hlam) (le_refl _) hrf
+    ⟨n, hn, by rw [remF_pos_arg hlam, one_mul, mul_comm]; exact hle⟩
+
+example : ∃ n, n < 10 ∧ prodU (constU (1 / 5)) 0 (n + 1) * expS (5 / 2) ≤ 1 :=
+  ⟨1, by norm_num, by norm_num [prodU, uAt, adv, constU, expS]⟩
+
+/-- **the tie is a genuine exception to Knuth's rule** (law of the sampler, measure zero): STEP = 1, λ = 2,
+    `exp = 2^⌈x⌉`, u₁ = 1/2.  The rescaling gives `p = u₁·exp(STEP) = 1` with `lambda_left = 1 > 0`; the inner
+    loop stops (`p < 1` false), the outer test `p > 1` is false, the C++ returns 0 — although
+    `u₁·exp λ = 2 > 1`, so Knuth's rule (`∏u < e^{-λ}`) has not fired and would draw again. -/
+theorem poisson_tie_witness :
+    samplePoisson (constU (1 / 2)) expS (fun x => x) 1 2 10 0 2 = some (0, 1) ∧
+    1 < prodU (constU (1 / 2)) 0 1 * expS 2 ∧ Peel expS 1 2 ∧ Ge1 expS 2 ∧
+    prodU (constU (1 / 2)) 0 1 * expS 1 ^ 1 = 1 := by
+  refine ⟨by norm_num [samplePoisson, poisLoop, poisRescale, expS, constU],
+    by norm_num [prodU, uAt, adv, constU, expS], ?_, ?_, by norm_num [prodU, uAt, adv, constU, expS]⟩
+  · intro x h1 h2; exact expS_peel x h1 (by linarith)
+  · intro x h1 h2; exact expS_ge1 x h1 (by linarith)
+
+/-- **draw count and sign, unconditionally** (every `exp`, `rnd`, mean, stream): the result is a natural
+    number (`k − 1` with `k ≥ 1` the number of loop iterations) and exactly `result + 1` uniforms are consumed -/
+theorem poisson_draws_exact (u01 : U01 G) (exp rnd : Rat → Rat) (step lam : Rat) (rf fuel : Nat) (g gout : G) (K : Nat)
+    (h : samplePoisson u01 exp rnd step rf fuel g lam = some (K, gout)) :
+    (0 : Int) ≤ (K : Int) ∧ gout = adv u01 (K + 1) g := by
+  obtain ⟨_, b⟩ := poisLoop_draws u01 exp rnd step rf fuel 0 1 lam g K gout h
+  exact ⟨Int.natCast_nonneg K, by simpa using b⟩
+
+example : samplePoisson (constU (1 / 5)) expS (fun x => x) 1 3 10 0 (5 / 2) = some (1, 2) ∧ (2 : Nat) = adv (constU (1 / 5)) (1 + 1) 0 :=
+  ⟨by norm_num [samplePoisson, poisLoop, poisRescale, expS, constU], by simp [adv, constU]⟩
+
+/-- a mean `≤ 0` (the C++ does not reject it): no rescaling, result 0 after one uniform -/
+theorem poisson_nonpos_mean (u01 : U01 G) (hu : Unit01 u01) (exp : Rat → Rat) (step lam : Rat) (rf fuel : Nat) (g : G)
+    (hlam : lam ≤ 0) : samplePoisson u01 exp (fun x => x) step rf (fuel + 1) g lam = some (0, (u01 g).2) := by
+  have hr : ∀ p, poisRescale exp (fun x => x) step rf p lam = (p, lam) := by
+    intro p
+    cases rf with
+    | zero => rfl
+    | succ f => simp only [poisRescale]; rw [if_neg (by intro hh; linarith [hh.2])]
+  simp only [samplePoisson, poisLoop, hr, one_mul]
+  rw [if_neg (by linarith [(hu g).2])]
+
+example : samplePoisson (constU (1 / 5)) expS (fun x => x) 1 3 (0 + 1) 0 (-3) = some (0, 1) :=
+  poisson_nonpos_mean (constU (1 / 5)) (fun g => by simp [constU]; norm_num) expS 1 (-3) 3 0 0 (by norm_num)
 
 /-- every sampler is a function `G → Out × G` of the passed generator: equal states give equal
     outputs and equal states afterwards (true by construction of the model; that the C++ has this
